@@ -30,6 +30,8 @@ def props_for(d, prop, w):
         ps.add(prop)           # a call that did not return does not satisfy any property about its result
     if w.get('attribute_all') and d.get('kind') in ('fields', 'valid', 'differ', 'cdiffer', 'crashed'):
         ps.add(prop)           # a workload built for this property alone (e.g. the C11 byte sweep)
+    if w.get('attribute_any') and 'SPEC' not in ps:
+        ps.add(prop)           # likewise, for trace specifications that name the properties themselves (C11 through URLSearchParams)
     return ps
 
 
